@@ -5,6 +5,7 @@ import (
 	"bytes"
 	"crypto/sha256"
 	"encoding/hex"
+	"errors"
 	"fmt"
 	"io"
 	"math/rand"
@@ -56,6 +57,31 @@ func parseCL(b []byte) (o clOutcome) {
 	return clOutcome{ok: err == nil, entries: es}
 }
 
+func parseCLFrom(r io.Reader) (o clOutcome) {
+	defer func() {
+		if r := recover(); r != nil {
+			o = clOutcome{panicky: true}
+		}
+	}()
+	es, err := changelog.Parse(r)
+	return clOutcome{ok: err == nil, entries: es}
+}
+
+// failingSource delivers data and then fails with an I/O error for ever (never io.EOF)
+type failingSource struct {
+	data []byte
+	off  int
+}
+
+func (f *failingSource) Read(p []byte) (int, error) {
+	if f.off < len(f.data) {
+		n := copy(p, f.data[f.off:])
+		f.off += n
+		return n, nil
+	}
+	return 0, errors.New("input/output error")
+}
+
 func idsOf(es changelog.ChangelogEntries) []interface{} {
 	out := []interface{}{}
 	for _, e := range es {
@@ -78,6 +104,12 @@ func execChangelog(vec J, out *Writer) {
 			o := parseCL(b[:c])
 			cuts = append(cuts, J{"ok": o.ok, "n": len(o.entries), "ids": idsOf(o.entries), "panic": o.panicky})
 		}
+		// the source FAILS (an I/O error, not end of input) after c bytes, for every c
+		faults := []interface{}{}
+		for c := 0; c <= len(b); c++ {
+			o := parseCLFrom(&failingSource{data: b[:c]})
+			faults = append(faults, J{"ok": o.ok, "n": len(o.entries), "panic": o.panicky})
+		}
 		// ParseOne called repeatedly on one reader
 		steps := []interface{}{}
 		rd := bufio.NewReader(bytes.NewReader(b))
@@ -95,7 +127,7 @@ func execChangelog(vec J, out *Writer) {
 		}
 		lean := J{"k": "cl", "entries": vec["entries"], "lead": vec["lead"], "gap": vec["gap"], "final": vec["final"], "bytes": vec["bytes"], "ends": vec["ends"]}
 		out.Put(J{"ev": "cl", "in": lean, "full": J{"ok": full.ok, "panic": full.panicky, "entries": detail, "ids": idsOf(full.entries)},
-			"cuts": cuts, "steps": steps})
+			"cuts": cuts, "faults": faults, "steps": steps})
 	case "clraw":
 		// corrupted changelog text: only "all entries or an error"
 		b := []byte(S(vec["bytes"]))
